@@ -273,6 +273,11 @@ def register(M):
     B['g_laplace'] = spec_draw('glaplace', 'float', None, 2)
     B['g_uniform'] = spec_draw('guniform', 'float', uniform_facts, 2)
 
+    def b_global_is(args, kw, st, node):
+        """global_is(state): numpy's global generator is currently in that state"""
+        return global_state(st) == state_of(args[0], st)
+    B['global_is'] = b_global_is
+
     def b_g_mvn(args, kw, st, node):
         G = state_of(args[0], st)
         mean, cov = M.as_arr(st, args[1]), M.as_arr(st, args[2])
